@@ -255,7 +255,7 @@ KINDS = "bcyi"
 
 
 def gen_run(rng):
-    """<sample_count> <sample_size|t> <threads> <opt/pre/inp/post kinds> <allocator behaviour> <seed>"""
+    """<sample_count> <sample_size|t> <threads> <opt/pre/inp/post[/cia] kinds> <allocator behaviour> <seed> [<shape>]"""
     def subset(p):
         return "".join(k for k in KINDS if rng.random() < p) or "-"
     k = rng.random()
@@ -278,6 +278,14 @@ def gen_run(rng):
         spec = f"{subset(0.25)}/{subset(0.25)}/{subset(0.3)}/{subset(0.15)}"
     size = "t" if rng.random() < 0.2 else str(rng.choice([0, 1, 1, 2, 3, 8]))
     count = rng.choice([0, 1, 2, 3, 4, 5, 8, 20]) if size != "t" else rng.choice([1, 2, 3, 5])
+    if rng.random() < 0.15:      # zero-sized input (the counter value comes from the call ordinal) x output shape
+        inp = "".join(k for k in KINDS if rng.random() < 0.4) or rng.choice(KINDS)
+        o = "".join(k for k in KINDS if rng.random() < 0.2) or "-"
+        p = "".join(k for k in KINDS if rng.random() < 0.2) or "-"
+        mode = rng.choice("00al")
+        th = 1 if mode == "l" else rng.choice([1, 1, 2, 3])
+        return (f"{count} {size} {th} {o}/{p}/{inp}/- {mode} {rng.randrange(1000)} "
+                f"{rng.choice(['zu', 'zn', 'zd', 'zs'])}")
     if rng.random() < 0.15:      # count_inputs_as::<K>() for some kinds, alone or next to constants of other kinds
         cia = "".join(k for k in KINDS if rng.random() < 0.4) or rng.choice(KINDS)
         others = [k for k in KINDS if k not in cia]
@@ -360,11 +368,13 @@ def streams(tier, rng):
         runs += [f"3 2 1 -/-/-/-/{kind} 0 7", f"3 2 1 {other}/-/-/-/{kind} a 7", f"4 1 2 -/{other}/-/-/{kind} 0 5",
                  f"3 2 1 {kind}/-/-/-/{kind} 0 9"]
     runs += ["2 1 2 -/b/-/-/bcyi 0 5", "2 t 1 y/-/-/-/c l 5"]
+    for shape in ("zu", "zn", "zd", "zs"):     # zero-sized input x output (), u64, zero-sized with Drop, String
+        runs += [f"3 2 1 -/-/i/- 0 7 {shape}", f"4 1 2 b/-/bi/- a 5 {shape}", f"2 t 1 -/-/y/- 0 3 {shape}"]
     runs += ["3 t 1 -/-/-/- l 0", "3 t 1 -/-/-/- l 2", "5 t 1 -/-/i/- l 1", "4 2 1 -/-/-/- l 1"]
     runs += ["8 2 1 -/-/-/- m 21", "8 1 1 b/-/b/- m 2", "2 t 1 -/-/-/- f 3", "2 t 1 -/-/-/- s 4"]
     runs += ["0 2 1 -/-/-/- 0 1", "2 0 1 -/-/b/- 1 3", "1 1 1 -/-/-/- 0 1", "3 2 1 -/-/b/- 1 7", "4 1 2 -/c/i/- 1 5",
              "5 3 1 -/i/-/- 0 9", "2 1 3 bc/y/bi/- 1 4", "0 2 1 i/-/i/- 0 1", "3 3 1 bi/ci/bci/- 1 11"]
-    while len(runs) < (260 if quick else 4000):
+    while len(runs) < (300 if quick else 4500):
         runs.append(gen_run(rng))
 
     e2e = corpus_cases("C05-e2e") + ["5 2 1,2 0 3", "4 3 2 1 3", "7 1 1,2,3 1 9", "3 2 2,1 1 4", "1 5 1,3 0 8",
@@ -392,6 +402,7 @@ def streams(tier, rng):
                describe="real Bencher runs (sample_count, explicit or tuned sample_size, threads 1..3, constant counters from the "
                         "options and from Bencher::counter (before and after input_counter) combined with input_counter or "
                         "count_inputs_as::<K>() of the same "
+                        "(sized inputs, and zero-sized inputs with outputs (), u64, zero-sized with Drop, String) "
                         "and of other kinds, the timed section allocating+freeing / only allocating / only freeing / only "
                         "shrinking / only growing memory (acquired by the generator) / nothing / a per-input mix / only in "
                         "the first calls of the run (lazy initialisation, with tuning rounds that are discarded), "
